@@ -162,6 +162,29 @@ mutual
       laokCheck c && decide (l + tbJ c + c.data.lookahead ≤ B) && laokCheckL rest (l + tbJ c) B
 end
 
+/-- The byte a stored position moves to under the property's mapping (the statement of
+`range_edit_eq_phi`, written out): at or after the old end it is shifted, strictly inside the replaced
+text it collapses to the start, up to the start it stays. -/
+def movedByte (b : Nat) (e : TSInputEdit) : Nat :=
+  if b ≥ e.old_end_byte then e.new_end_byte + (b - e.old_end_byte)
+  else if b > e.start_byte then e.start_byte else b
+
+/-- Judge for the tree's stored included ranges (property text: "the tree's stored included ranges move
+by the same mapping"): same number of ranges, and for every range inside `range_edit_eq_phi`'s domain
+(ordered, no `UINT32_MAX` sentinel, no 32-bit overflow) both byte ends are the moved bytes.  Returns the
+index of the first offending range. -/
+def rangesJudge (old new : List TSRange) (e : TSInputEdit) : Option Nat :=
+  if old.length ≠ new.length then some old.length else
+  let rec go : List TSRange → List TSRange → Nat → Option Nat
+    | r :: rs, n :: ns, i =>
+      if r.start_byte ≤ r.end_byte ∧ r.end_byte < 4294967295 ∧ e.new_end_byte + r.end_byte < 4294967296 ∧
+         e.start_byte ≤ e.old_end_byte ∧
+         (n.end_byte ≠ movedByte r.end_byte e ∨ n.start_byte ≠ movedByte r.start_byte e) then some i
+      else go rs ns (i + 1)
+    | _, _, _ => none
+  go old new 0
+
+
 end TsVerif.C10
 
 /-! ## Row/column consistency with a text, decided on real trees (hypothesis of `edit_consistent`) -/
